@@ -1,5 +1,6 @@
 import Femio.Model.Surface
 import Femio.Model.Obj
+import Femio.Lemmas.ObjTextProps
 import Femio.Lemmas.VolumeD
 import Femio.Lemmas.SurfaceProps
 import Femio.Lemmas.NumeralProps
@@ -329,5 +330,33 @@ theorem C10_obj_roundtrip (verts : List (List Obj.Token)) (blocks : List (List (
 /-- non-vacuity: a file with two vertices, an empty triangle block and one quadrilateral -/
 example : Obj.readObj (Obj.writeObj [[['0'], ['1'], ['2']], [['3'], ['4'], ['5']]] [[], [[3, 0, 1, 2]]])
     = some ([[['0'], ['1'], ['2']], [['3'], ['4'], ['5']]], [[4, 1, 2, 3]]) := by decide
+
+/-- **C10_obj_lex_print.** Character level: the text of any token lines (tokens non-empty and free of whitespace;
+    a line = its tokens joined by single blanks, terminated by a newline) is lexed back — lines between newlines,
+    each split at Python whitespace — to the same lines in the same order, minus the empty ones (which
+    `StringSeries.read_file` skips and which are neither `v` nor `f` lines). -/
+theorem C10_obj_lex_print (ls : List Obj.Line) (h : Obj.LinesOK ls) :
+    Obj.tokenize (Obj.render ls) = ls.filter fun l => !l.isEmpty :=
+  Obj.tokenize_render ls h
+
+/-- **C10_obj_roundtrip_chars.** `C10_obj_roundtrip` through the characters of the file: for any vertices whose
+    coordinate numerals are non-empty whitespace-free tokens (`vertsOKB`, evaluated by the driver on every case) and
+    any face blocks — including an empty block, which writes one empty line —, reading the characters the OBJ writer
+    produced (`v x y z` / `f i j k [l]` lines, newline-terminated) gives the same vertex tokens in storage order
+    and the same faces in the same order as 1-based positions. -/
+theorem C10_obj_roundtrip_chars (verts : List (List Obj.Token)) (blocks : List (List (List Nat)))
+    (h : Obj.vertsOKB verts = true) :
+    Obj.readObj (Obj.tokenize (Obj.render (Obj.writeObj verts blocks)))
+      = some (verts, blocks.flatten.map (·.map (· + 1))) := by
+  rw [Obj.tokenize_render _ (Obj.writeObj_linesOK verts blocks h), Obj.readObj_filter]
+  exact C10_obj_roundtrip verts blocks
+
+/-- non-vacuity: two vertices, an empty triangle block (one empty line in the file) and one quadrilateral -/
+example : Obj.render (Obj.writeObj [["0.5".toList, "-1e-05".toList, "2.0".toList], ["3.0".toList, "NaN".toList, "inf".toList]] [[], [[3, 0, 1, 10]]])
+    = "v 0.5 -1e-05 2.0\nv 3.0 NaN inf\n\nf 4 1 2 11\n".toList := by decide
+example : Obj.vertsOKB [["0.5".toList, "-1e-05".toList, "2.0".toList], ["3.0".toList, "NaN".toList, "inf".toList]] = true := by decide
+example : Obj.readObj (Obj.tokenize "v 0.5 -1e-05 2.0\nv 3.0 NaN inf\n\nf 4 1 2 11\n".toList)
+    = some ([["0.5".toList, "-1e-05".toList, "2.0".toList], ["3.0".toList, "NaN".toList, "inf".toList]], [[4, 1, 2, 11]]) := by
+  decide
 
 end Femio.C10
